@@ -1042,13 +1042,17 @@ int tls_record_get_handshake_certificate(const uint8_t *record, uint8_t *certs, 
 		size_t alen;
 		const uint8_t *cert;
 		size_t certlen;
+		size_t need = *certslen;
 
 		if (tls_uint24array_from_bytes(&a, &alen, &cp, &len) != 1) {
 			error_print();
 			return -1;
 		}
+		// the caller's buffer is the connection's certificate store of TLS_MAX_CERTIFICATES_SIZE bytes
 		if (x509_cert_from_der(&cert, &certlen, &a, &alen) != 1
 			|| asn1_length_is_zero(alen) != 1
+			|| x509_cert_to_der(cert, certlen, NULL, &need) != 1
+			|| need > TLS_MAX_CERTIFICATES_SIZE
 			|| x509_cert_to_der(cert, certlen, &certs, certslen) != 1) {
 			error_print();
 			return -1;
